@@ -344,6 +344,26 @@ static void do_del(int k)
 	observe("del", k, 0, ret, 0, 0, 0, 0);
 }
 
+static const int *fdel_ks;
+static int fdel_nks, *fdel_vis, fdel_nvis;
+static int fdel_cb(json_object *jso, int flags, json_object *parent, const char *key, size_t *idx, void *arg)
+{
+	(void)jso;
+	(void)idx;
+	(void)arg;
+	if (parent != obj || !key || (flags & JSON_C_VISIT_SECOND))
+		return JSON_C_VISIT_RETURN_CONTINUE;
+	int id = key_id(key);
+	if (fdel_nvis < MAXK * 2)
+		fdel_vis[fdel_nvis++] = id;
+	for (int i = 0; i < fdel_nks; i++)
+		if (fdel_ks[i] == id)
+		{
+			json_object_object_del(parent, key);
+			return JSON_C_VISIT_RETURN_SKIP;
+		}
+	return JSON_C_VISIT_RETURN_CONTINUE;
+}
 static void do_fdel(const int *ks, int nks)
 {
 	int vis[MAXK * 2], nvis = 0;
@@ -364,7 +384,7 @@ static void do_fdel(const int *ks, int nks)
 				}
 		}
 	}
-	else
+	else if (vh_below(2))
 	{
 		json_object_object_foreach(obj, key, val)
 		{
@@ -379,6 +399,16 @@ static void do_fdel(const int *ks, int nks)
 					break;
 				}
 		}
+	}
+	else
+	{
+		/* the visitor form of the same loop: the callback deletes the member it is called for and skips it */
+		fdel_ks = ks;
+		fdel_nks = nks;
+		fdel_vis = vis;
+		fdel_nvis = 0;
+		json_c_visit(obj, 0, fdel_cb, NULL);
+		nvis = fdel_nvis;
 	}
 	observe("fdel", 0, 0, 0, ks, nks, vis, nvis);
 }
